@@ -378,7 +378,7 @@ func cmdRun(args []string) int {
 		rp := newReplayer(ps)
 		defer rp.close()
 		for i, c := range rep.Candidates {
-			if i >= 5 {
+			if i >= 40 {
 				break
 			}
 			p, _ := writeCase(filepath.Join(os.TempDir(), "bklsym-cases"), replayCase{Harness: c.Harness, Tier: t, ND: c.ND, Kind: c.Kind, AssertID: c.AssertID, Msg: c.Msg, Pkg: *pkg, Predict: c.Observes})
